@@ -28,3 +28,17 @@ if __name__ == "__main__":
     progs.append(dsl.normalize(P("yield-then-store-nojoin", [spawn(2), spawn(3)],
                                [ld("x", "sc"), ld("y", "sc")], [I("yield"), st("x", 32, "sc")])))
     run(progs, bounds=(None, 0, 1, 2, 3))
+
+
+def scheds(p, bound):
+    import pathcheck
+    cfg = {"trace_cap": 0, "want_paths": True}
+    if bound is not None:
+        cfg["preemption_bound"] = bound
+    res = loomrun.run_items("/verif/work/probe", [{"prog": p, "cfg": cfg}], jobs=1, tag="probe")[0]
+    out = []
+    for (ph, it, path) in res["hook_events"]:
+        if ph == "end":
+            c = pathcheck.canon_path(path)
+            out.append([(e["th"].index("Active") + 1 if "Active" in e["th"] else 0) if e["k"] == "S" else e["k"] for e in c["br"]])
+    return out
